@@ -315,7 +315,22 @@ def fam_response(ctx, rng):
     fft = gen_pre_fft(rng)
     ctx.describe(L=L, dt=dt, alpha=alpha, flat=flat, sensitivity=S, normalization=A0, poles=[str(p) for p in poles], zeros=[str(z) for z in zeros],
                  fft_settings=fft)
-    itf = InstrumentTransferFunction(poles, zeros, S, A0)
+    if rng.random() < 0.35:
+        # the transfer-function object has a past: it described another sensor, was used (response curve drawn, a record
+        # corrected), and was then re-described through its public attributes - what counts is the current description
+        w1 = 2 * np.pi * float(rng.choice([2.0, 10.0, 0.5]))
+        itf = InstrumentTransferFunction([complex(-0.6 * w1, 0.8 * w1), complex(-0.6 * w1, -0.8 * w1)] + ([complex(-5 * w1, 0)] if rng.random() < 0.5 else []),
+                                         [0j, 0j] if rng.random() < 0.7 else [0j], float(10 ** rng.uniform(0, 3)), 1.0)
+        itf.response(np.geomspace(0.1, 50, 16))
+        if rng.random() < 0.5:
+            hvsrpy.preprocess([gen.make_recording(*[a.copy() for a in arrs], dt)], pre_settings(alpha, itf=itf, differentiate=False, fft=gen_pre_fft(rng)))
+        itf.poles = [complex(p) for p in poles]
+        itf.zeros = [complex(z) for z in zeros]
+        itf.instrument_sensitivity = S
+        itf.normalization_factor = A0
+        ctx.count("transfer_functions_re_described_after_use")
+    else:
+        itf = InstrumentTransferFunction(poles, zeros, S, A0)
     rec = gen.make_recording(*[a.copy() for a in arrs], dt)
     both = bool(rng.random() < 0.4)       # response removal AND differentiation in one call (one detrend, one taper)
     st = pre_settings(alpha, itf=itf, differentiate=both, fft=fft)
